@@ -632,7 +632,10 @@ func (fsm *storeFSM) Snapshot() (raft.FSMSnapshot, error) {
 	s.mu.Lock()
 	defer s.mu.Unlock()
 
-	return &storeFSMSnapshot{Data: (*store)(fsm).data}, nil
+	// Hand out a copy: the published object keeps being stamped with the term
+	// and index of later log entries (also of rejected commands) while the
+	// snapshot is persisted in the background.
+	return &storeFSMSnapshot{Data: (*store)(fsm).data.Clone()}, nil
 }
 
 func (fsm *storeFSM) Restore(r io.ReadCloser) error {
